@@ -1,9 +1,11 @@
 package main
 
 import (
+	"context"
 	"fmt"
 	"strconv"
 	"strings"
+	"time"
 
 	"github.com/superfly/litefs"
 )
@@ -57,6 +59,47 @@ func (m *rwImpl) Do(line string) (obs string) {
 			ss[i] = m.guards[i].State().String()
 		}
 		return m.mu.State().String() + " | " + strings.Join(ss, " ")
+	case len(f) == 4 && (f[0] == "block-lock" || f[0] == "block-rlock"):
+		// block-(r)lock <i> <releaseOp> <j>: owner i calls the blocking variant while it cannot be
+		// granted; then owner j performs releaseOp; report whether/with what the blocked call returned.
+		i, e1 := strconv.Atoi(f[1])
+		j, e2 := strconv.Atoi(f[3])
+		if e1 != nil || e2 != nil || i < 0 || j < 0 || i >= len(m.guards) || j >= len(m.guards) || i == j {
+			return "bad-op"
+		}
+		ctx, cancel := context.WithTimeout(context.Background(), 400*time.Millisecond)
+		defer cancel()
+		done := make(chan error, 1)
+		go func() {
+			if f[0] == "block-lock" {
+				done <- m.guards[i].Lock(ctx)
+			} else {
+				done <- m.guards[i].RLock(ctx)
+			}
+		}()
+		time.Sleep(3 * time.Millisecond)
+		early := false
+		select {
+		case <-done:
+			early = true
+		default:
+		}
+		if early {
+			return "returned-before-release"
+		}
+		rel := m.Do(f[2] + " " + f[3])
+		var res string
+		select {
+		case err := <-done:
+			if err != nil {
+				res = "ctx-ended"
+			} else {
+				res = "acquired"
+			}
+		case <-time.After(800 * time.Millisecond):
+			res = "hang"
+		}
+		return rel + " " + res
 	case len(f) == 2:
 		n, err := strconv.Atoi(f[1])
 		if err != nil || n < 0 {
@@ -128,6 +171,30 @@ func genRWMutex(c *Ctx) error {
 		c.CountN(fmt.Sprintf("bfs.states.n%d", n), len(seen))
 	}
 	c.Stats.Exhaustive = true
+	// blocking variants: a waiter that cannot be granted, then a release / downgrade by the holder
+	for n := 2; n <= 3; n++ {
+		for _, setup := range [][]string{{"trylock 1"}, {"tryrlock 1"}, {"tryrlock 1", "tryrlock 0"}} {
+			for _, blk := range []string{"block-lock", "block-rlock"} {
+				for _, rel := range []string{"unlock", "tryrlock"} {
+					cs := c.Begin()
+					cs.Do(fmt.Sprintf("init %d", n))
+					for _, s := range setup {
+						cs.Do(s)
+					}
+					can := cs.Do(map[string]string{"block-lock": "canlock 0", "block-rlock": "canrlock 0"}[blk])
+					if strings.HasPrefix(can, "true") {
+						cs.End()
+						continue // would not block
+					}
+					res := cs.Do(fmt.Sprintf("%s 0 %s 1", blk, rel))
+					cs.Do("state")
+					cs.End()
+					c.Count("blocking." + strings.ReplaceAll(res, " ", "-"))
+					c.Nontrivial(fmt.Sprintf("blk|%d|%v|%s|%s", n, setup, blk, rel))
+				}
+			}
+		}
+	}
 	nSeq, seqLen := 200, 60
 	if c.Tier == "thorough" {
 		nSeq, seqLen = 20000, 120
